@@ -4,6 +4,7 @@ import PGM.Driver.C12
 import PGM.Driver.C01
 import PGM.Driver.C04
 import PGM.Driver.C09
+import PGM.Driver.C19
 import PGM.Driver.C03
 import PGM.Driver.C08
 import PGM.Driver.C11
@@ -27,6 +28,7 @@ def dispatch (req : Json) : Except String Json := do
   | "many" => handleMany req
   | "loss" => handleLoss req
   | "total" => handleTotal req
+  | "emd" => handleEmd req
   | "fw_gap" => handleFWGap req
   | "solve" => handleSolve req
   | "bp_f" => handleBPF req
